@@ -8,6 +8,7 @@ from .asm import A, T, emit, size_of
 
 HANDLER_BASE = 0x100
 MON_BASE = 0x400              # MVBAR of program-mode runs
+HYP_BASE = 0x600              # HVBAR of program-mode runs
 HANDLER_SLOT = 0x80
 KINDS = ['und', 'svc', 'pabt', 'dabt', 'hyp', 'irq', 'fiq']
 VEC = {'reset': 0x00, 'und': 0x04, 'svc': 0x08, 'pabt': 0x0C, 'dabt': 0x10, 'hyp': 0x14, 'irq': 0x18, 'fiq': 0x1C}
@@ -81,6 +82,8 @@ def handler_thumb(kind, ret, clobber=True, mode=None):
     base = ret.rstrip('8')
     if base == 'patch_retry':
         return [T.push(0x0F)] + body + [T.pop(0x0F), T.subs_pc_lr(2)]
+    if base == 'eret':
+        return [T.push(0x0F)] + body + [T.pop(0x0F), T.ERET]           # Hyp mode: ELR_hyp already is the address to resume at
     if base in ('subs', 'movs'):
         return [T.push(0x0F)] + body + [T.pop(0x0F), T.subs_pc_lr(adj)]
     if base == 'it_subs':
@@ -135,6 +138,20 @@ def build_low(te, returns, clobber=True):
     for off in (0x00, 0x04, 0x0C, 0x10, 0x14):
         v = MON_BASE + off
         page[v:v + 4] = emit([T.SELF, T.NOP], True) if te else emit([A.SELF], False)
+    # Hyp vector table at HVBAR = 0x600 (always Thumb code: HSCTLR.TE=1, the ARM encoding of ERET is not implemented by the emulator):
+    # IRQ / FIQ handlers for runs that route physical interrupts to Hyp mode (HCR.IMO / HCR.FMO); they return with ERET
+    for i, kind in enumerate(['irq', 'fiq']):
+        haddr = HYP_BASE + 0x40 + HANDLER_SLOT * i
+        words = handler_thumb(kind, 'eret', clobber, mode=0x1a)
+        code = emit(words, True)
+        assert len(code) <= HANDLER_SLOT
+        page[haddr:haddr + len(code)] = code
+        info['hyp_' + kind] = (haddr, len(code), len(words))
+        v = HYP_BASE + VEC[kind]
+        page[v:v + 4] = emit([T.b(haddr - v), T.NOP], True)
+    for off in (0x00, 0x04, 0x08, 0x0C, 0x10, 0x14):
+        v = HYP_BASE + off
+        page[v:v + 4] = emit([T.SELF, T.NOP], True)
     # unused vectors: branch to self (observable as a stuck run)
     for kind in ('reset', 'pabt', 'hyp'):
         v = VEC[kind]
